@@ -198,6 +198,7 @@ type DirectedCycle struct {
 	edgeTo  []int
 	onStack []bool
 	cycle   list.Stack[int]
+	path    []int // the cycle, once read from the stack
 }
 
 func newDirectedCycle(g *Directed) *DirectedCycle {
@@ -246,11 +247,17 @@ func (c *DirectedCycle) Cycle() ([]int, bool) {
 		return nil, false
 	}
 
-	cycle := make([]int, 0)
-	for !c.cycle.IsEmpty() {
-		v, _ := c.cycle.Pop()
-		cycle = append(cycle, v)
+	// Drain the stack only once; later calls return the same cycle again.
+	if c.path == nil {
+		c.path = make([]int, 0, c.cycle.Size())
+		for !c.cycle.IsEmpty() {
+			v, _ := c.cycle.Pop()
+			c.path = append(c.path, v)
+		}
 	}
+
+	cycle := make([]int, len(c.path))
+	copy(cycle, c.path)
 
 	return cycle, true
 }
